@@ -1524,6 +1524,9 @@ class Explorer:
         finally:
             _CTX = None
         cs, outcome, info = self.run_concrete(assignment)
+        if outcome == "timeout":
+            self.stats.inconclusive_paths += 1  # native run of the witness exceeded the wall budget: nothing to compare
+            return None, assignment, {}
         if outcome != "done":
             return ("concrete run outcome " + outcome, info), assignment, None
         got = cs.observed
